@@ -49,6 +49,59 @@ def _pure_arith(t) -> bool:
     return True
 
 
+def _symbols(t, cache) -> frozenset:
+    """names of the uninterpreted constants / functions of a term"""
+    key = t.get_id()
+    if key in cache:
+        return cache[key]
+    out = set()
+    stack, seen = [t], set()
+    while stack:
+        x = stack.pop()
+        if x.get_id() in seen:
+            continue
+        seen.add(x.get_id())
+        if z3.is_quantifier(x):
+            stack.append(x.body())
+            continue
+        if z3.is_app(x):
+            if x.decl().kind() == z3.Z3_OP_UNINTERPRETED:
+                out.add(x.decl().name())
+            stack.extend(x.children())
+    cache[key] = frozenset(out)
+    return cache[key]
+
+
+def _solve_relevant(ob: Oblig, depth: int, timeout_ms: int):
+    """Sound weakening: keep only the assumptions connected to the goal through shared symbols in at most `depth` steps
+    (fewer assumptions can only make `unsat` harder to reach, never wrong).  Simple goals (a length, a frame) sit in a
+    path condition full of quantified facts about other things; without those facts z3 has nothing to diverge on."""
+    cache: Dict[int, frozenset] = {}
+    syms = set(_symbols(ob.goal, cache))
+    chosen = set()
+    for _ in range(depth):
+        grew = False
+        for i, a in enumerate(ob.assumptions):
+            if i in chosen:
+                continue
+            sa = _symbols(a, cache)
+            if sa & syms:
+                chosen.add(i)
+                grew = True
+        for i in chosen:
+            syms |= _symbols(ob.assumptions[i], cache)
+        if not grew:
+            break
+    if len(chosen) == len(ob.assumptions):
+        return None
+    small = Oblig(ob.name, ob.kind, ob.fn, ob.line, [ob.assumptions[i] for i in sorted(chosen)], ob.goal, ob.text, ob.path, ob.serves, False)
+    s = _build_solver(small, timeout_ms)
+    try:
+        return s.check() == z3.unsat
+    except Exception:  # pragma: no cover
+        return None
+
+
 def _solve_arith_cone(ob: Oblig, timeout_ms: int):
     """sound weakening for nonlinear hints: drop every assumption that is not pure arithmetic; `unsat` of the smaller
     query is `unsat` of the full one (anything else is ignored)"""
@@ -64,6 +117,22 @@ def _solve_arith_cone(ob: Oblig, timeout_ms: int):
         return s.check() == z3.unsat
     except Exception:  # pragma: no cover
         return None
+
+
+def quick_check(formulas, rlimit: int, wall_ms: int = 60000):
+    """Generation-time solver call (path pruning, entailment, proved lemma premises): in a context of its own and under a
+    resource limit, so that the answer - and with it the generated VC - depends neither on what the process did before
+    nor on how busy the machine is."""
+    ctx = z3.Context()
+    s = z3.Solver(ctx=ctx)
+    s.set("rlimit", rlimit)
+    s.set("timeout", wall_ms)
+    for f in formulas:
+        s.add(f.translate(ctx))
+    try:
+        return s.check()
+    except z3.Z3Exception:
+        return z3.unknown
 
 
 def to_smt2_qf(ob: Oblig) -> str:
@@ -155,6 +224,20 @@ def _solve_one(idx) -> Dict[str, Any]:
     if ob.kind == "hint" and _solve_arith_cone(ob, 5000):
         out.update(verdict="unsat", solver=f"z3 {z3.get_version_string()} (arithmetic cone)", time=time.time() - t0)
         return out
+    # 1. the quantifier-free part of the path condition alone (sound weakening; a decidable fragment, so the answer is
+    #    stable): lengths, frames and plain arithmetic are settled here without z3 ever looking at a quantifier
+    try:
+        sq = _build_solver(ob, 5000, qf_only=True)
+        if sq.check() == z3.unsat:
+            out.update(verdict="unsat", solver=f"z3 {z3.get_version_string()} qf", time=time.time() - t0)
+            return out
+    except Exception:  # pragma: no cover
+        pass
+    if getattr(ob, "hint", None) in (None, "rel1", "rel2"):
+        for depth in ((2, 1) if getattr(ob, "hint", None) == "rel2" else (1, 2)):
+            if _solve_relevant(ob, depth, 2000 if getattr(ob, "hint", None) is None else Z3_TIMEOUT_MS):
+                out.update(verdict="unsat", solver=f"z3 {z3.get_version_string()} rel{depth}", time=time.time() - t0)
+                return out
     if getattr(ob, "hint", None) == "cvc5":
         # this obligation class was discharged by cvc5 when the ledger was recorded: ask cvc5 first
         r = _external(ob, only="cvc5")
@@ -168,8 +251,10 @@ def _solve_one(idx) -> Dict[str, Any]:
         # needed another configuration when the ledger was recorded, the ledger remembers the configuration (hint
         # "z3:cfg<i>") and that one runs first with the long budget: a pass does not turn into a timeout on a busy machine.
         cfgs = [{}, {"smt.mbqi": False}, {"smt.random_seed": 7}, {"smt.random_seed": 23, "smt.mbqi": False}, {"smt.random_seed": 101}]
-        short = [(i, 3000) for i in range(len(cfgs))]
-        plan = short + [(0, Z3_TIMEOUT_MS)]
+        # E-matching alone (no model-based instantiation: cfg1, cfg3) is what finds these proofs; MBQI is where z3 diverges
+        # on them, so the MBQI-free configurations go first and also get the long budget first
+        short = [(1, 5000), (0, 3000), (3, 5000), (2, 3000), (4, 3000)]
+        plan = short + [(1, Z3_TIMEOUT_MS), (0, Z3_TIMEOUT_MS)]
         h = getattr(ob, "hint", None) or ""
         if h.startswith("z3:cfg"):
             # the configuration that discharged this class when the ledger was recorded, with the long budget, first
@@ -186,6 +271,12 @@ def _solve_one(idx) -> Dict[str, Any]:
                 break
         if r == z3.unsat:
             out.update(verdict="unsat", solver=f"z3 {z3.get_version_string()}" + label)
+            if not h and time.time() - t0 > 5.0:
+                # slow for z3 and nothing remembered yet (ledger run): note whether cvc5 is the better first choice
+                t2 = time.time()
+                ext = _external(ob, only="cvc5")
+                if ext is not None and ext[0] == "unsat" and time.time() - t2 < 0.5 * (t2 - t0):
+                    out["prefer"] = "cvc5"
         elif r == z3.sat:
             out.update(verdict="sat", solver=f"z3 {z3.get_version_string()}")
             try:
@@ -276,7 +367,7 @@ def _solve_cover(idx, ob, t0):
     return out
 
 
-def discharge(obligs: List[Oblig], procs: int = None) -> List[Dict[str, Any]]:
+def discharge(obligs: List[Oblig], procs: int = None, one_query_per_process: bool = False) -> List[Dict[str, Any]]:
     """Returns one result dict per obligation (same order)."""
     global _OBLIGS
     procs = procs or min(16, os.cpu_count() or 4)
@@ -297,13 +388,25 @@ def discharge(obligs: List[Oblig], procs: int = None) -> List[Dict[str, Any]]:
     _OBLIGS = obligs
     if jobs:
         if procs > 1 and len(jobs) > 1:
-            with mp.get_context("fork").Pool(min(procs, len(jobs))) as pool:
+            # one_query_per_process: every query is solved in a child forked from *this* process as it is now
+            with mp.get_context("fork").Pool(min(procs, len(jobs)), maxtasksperchild=1 if one_query_per_process else None) as pool:
                 for r in pool.imap_unordered(_solve_one, jobs, chunksize=1):
                     results[r["idx"]] = r
         else:
             for j in jobs:
                 r = _solve_one(j)
                 results[r["idx"]] = r
+    # second chance for "no verdict": such answers were seen only while several checks competed for the machine (the same
+    # query is discharged in 0.0 s when run alone), so the few open ones are asked again, four at a time, after the pool
+    # has drained.  A genuinely failing obligation is `sat` or stays unknown; nothing is ever upgraded to a violation here.
+    again = [j for j in jobs if results[j] is not None and results[j]["verdict"] == "unknown" and not obligs[j].expect_sat]
+    if 0 < len(again) <= 24 and procs > 1:
+        with mp.get_context("fork").Pool(min(4, len(again)), maxtasksperchild=1 if one_query_per_process else None) as pool:
+            for r in pool.imap_unordered(_solve_one, again, chunksize=1):
+                if r["verdict"] != "unknown":
+                    r["solver"] = (r["solver"] or "") + " (second pass)"
+                    r["time"] += results[r["idx"]]["time"]
+                    results[r["idx"]] = r
     for i, j in dup_of.items():
         results[i] = dict(results[j], idx=i, time=0.0, solver=(results[j]["solver"] or "") + " (shared)")
     return results
